@@ -306,6 +306,10 @@ class ValidationSpec(Spec):
 
     def run(self, choices, forced=None):
         from harness import validation
+        if forced is None and choices.flag("cfg.valctx", 1, 12):
+            # validation stays in force around the package's own API (a real Client against the real manager)
+            from harness import valctx
+            return valctx.run(choices)
         return validation.run(choices, forced)
 
     def deterministic_cases(self, tier):
